@@ -54,7 +54,7 @@ ASSUMPTIONS = [
     "a wrong shape for odd sizes, which is outside this property)",
 ]
 
-UNITS = ["ill_u", "ill_r", "ill_e", "img", "stripe", "chg", "dc"]
+UNITS = ["ill_u", "ill_r", "ill_e", "img", "stripe", "chg", "dc", "imgc"]
 LENGTH = 6.0
 P = "pyxel.models."
 
@@ -121,7 +121,7 @@ def expected_size(tier, seed):
                         continue
                     n += 1
     if thorough:
-        n += 8 * (4 * 2 + 4 * 1)
+        n += 8 * (4 * 2 + 5 * 1)
     else:
         n += 1
     return n
@@ -153,6 +153,13 @@ def build_pipeline(units, palette, geo, tmp):
         np.save(f, ramp)
         photon.append((P + "photon_collection.load_image", "img",
                        {"image_file": f, "multiplier": 2.0 if dy else 1.1, "time_scale": 0.5 if dy else 3.0}))
+    if "imgc" in units:
+        # the same model reading the file as ADU of a 12-bit converter (convert_to_photons): another scaling branch
+        f = os.path.join(tmp, f"imgc_{_seed()}.npy")
+        np.save(f, ramp * 4)
+        photon.append((P + "photon_collection.load_image", "imgc",
+                       {"image_file": f, "convert_to_photons": True, "bit_resolution": 12,
+                        "multiplier": 1.0 if dy else 1.3, "time_scale": 2.0 if dy else 0.9}))
     if "stripe" in units:
         photon.append((P + "photon_collection.stripe_pattern", "stripe",
                        {"period": 2, "level": (8.0 + k) if dy else 0.9, "startwith": 1 if dy else 0,
@@ -182,7 +189,20 @@ def run_schedule(units, palette, geo, start, times, nd, tmp, via="ctor"):
 
     groups, temperature = build_pipeline(units, palette, geo, tmp)
     det = mk.detector("ccd", geo[0], geo[1], temperature=temperature)
-    if via == "ctor" or len(times) < 2:
+    if via in ("start_setter", "deprecated"):
+        # the start time reaches the readout through its setter, after construction
+        exp = mk.exposure(times, nd, start - 1.0)
+        exp.readout.start_time = start
+        if via == "deprecated":
+            import warnings
+
+            with warnings.catch_warnings():
+                warnings.simplefilter("ignore")
+                ds = pyxel.exposure_mode(exp, det, mk.pipeline(groups))
+            px = ds["pixel"]
+            return (np.asarray(px.transpose("readout_time", "y", "x").values, dtype=float),
+                    [float(t) for t in px["readout_time"].values])
+    elif via == "ctor" or len(times) < 2:
         exp = mk.exposure(times, nd, start)
     else:
         exp = mk.exposure([times[-1]], nd, start)
@@ -248,7 +268,7 @@ def run_case(case):
                     try:
                         # the way the schedule is handed over rotates with the partition (all three must be equivalent)
                         cube, labels = run_schedule(units, palette, geo, start, times, mode == "nd", tmp,
-                                                    via=("ctor", "setter", "replace")[mask % 3])
+                                                    via=("ctor", "setter", "replace", "start_setter", "deprecated")[mask % 5])
                         runs += 1
                     except Exception as e:  # noqa: BLE001
                         if ("raised",) + code_done not in seen:
